@@ -5,6 +5,7 @@
 #include <stdio.h>
 #include "bee2/core/mem.h"
 #include "bee2/crypto/bake.h"
+#include "bee2/crypto/belt.h"
 #include "bee2/crypto/btok.h"
 
 enum { P_BMQV, P_BSTS, P_BPACE, P_BAUTH };
@@ -13,6 +14,7 @@ static const size_t LV[3] = { 128, 192, 256 };
 
 typedef struct {
 	int proto, kca, kcb, mode[2], tape_mode[2], mismatch;
+	int adv;                  /* -1: both parties run the library; 0/1: that side is the adversary of run_bake_adv */
 	size_t l, cert_pref[2], hello_len[2], pwd_len;
 	int hello_null[2];
 	octet hello[2][100], pwd[2][40];
@@ -246,10 +248,99 @@ static void party_steps(party* p)
 	p->accepted = 1;
 }
 
+
+/* ------------------------------------------------------------- adversary */
+/* A peer that does not know the password (BPACE).  It cannot form a valid point
+   from the password, but if the victim forgot to check that the received point
+   lies on the curve it can send (x, 0): on the curve y^2 = x^3 + a x + b' that
+   this point defines it has order 2, so the victim's product u * (x, 0) is the
+   point itself whenever its ephemeral scalar u is odd - a value the adversary
+   knows.  It derives K0, K1 and its confirmation tag from that guess exactly as
+   the standard prescribes.  On a correct library every such session ends with
+   ERR_BAD_POINT at the victim. */
+static octet ADV_K0[32];
+static int adv_sent;
+static void party_adversary(party* p)
+{
+	cfg_t* c = &CFG;
+	int a = p->side == 0;
+	size_t l = c->l, no = l / 4, len = 0;
+	octet* in = INB[p->side];
+	octet* out = OUTB[p->side];
+	static octet hst[4096];
+	octet X[64], Y[32], K1[32], lvl[12], hdr[16], blk[16];
+	const octet* vax;
+	const octet* vbx;
+	sk_rng* r = &p->tape.r;
+	if (beltHash_keep() > sizeof(hst))
+		return;
+	/* the point (x, 0), x < p */
+	sk_bytes(r, X, no);
+	X[no - 1] &= 0x7F;
+	if (sk_chance(r, 1, 8))
+		memset(X, 0, no);
+	if (!a)
+	{
+		/* as B: M1 = Yb (anything), M3 = Vb' [|| Tb] */
+		sk_bytes(r, out, l / 8);
+		SEND(p, out, l / 8);
+		RECV(p, in, &len, 5 * l / 8, 1);
+		vax = in + l / 8, vbx = X;
+	}
+	else
+	{
+		/* as A: M2 = Ya (anything) || Va', M4 = Ta */
+		RECV(p, in, &len, l / 8, 1);
+		sk_bytes(r, out, l / 8);
+		memcpy(out + l / 8, X, no), memset(out + l / 8 + no, 0, no);
+		SEND(p, out, 5 * l / 8);
+		adv_sent = 1;
+		RECV(p, in, &len, l / 2 + (c->kcb ? 8u : 0), 1);
+		vax = X, vbx = in;
+	}
+	/* Y <- beltHash(<K>_2l || <Va>_2l || <Vb>_2l || helloa || hellob) with K = (x, 0) */
+	beltHashStart(hst);
+	beltHashStepH(X, no, hst);
+	beltHashStepH(vax, no, hst);
+	beltHashStepH(vbx, no, hst);
+	if (p->st.helloa)
+		beltHashStepH(p->st.helloa, p->st.helloa_len, hst);
+	if (p->st.hellob)
+		beltHashStepH(p->st.hellob, p->st.hellob_len, hst);
+	beltHashStepG(Y, hst);
+	memset(lvl, 0xFF, 12), memset(hdr, 0, 16);
+	beltKRP(ADV_K0, 32, Y, 32, lvl, hdr);
+	hdr[0] = 1;
+	beltKRP(K1, 32, Y, 32, lvl, hdr);
+	if (!a)
+	{
+		memcpy(out, X, no), memset(out + no, 0, no);
+		if (c->kcb)
+		{
+			memset(blk, 0xFF, 16);
+			beltMAC(out + 2 * no, blk, 16, K1, 32);
+		}
+		SEND(p, out, l / 2 + (c->kcb ? 8u : 0));
+		adv_sent = 1;
+		if (c->kca)
+			RECV(p, in, &len, 8, 1);
+	}
+	else if (c->kca)
+	{
+		memset(blk, 0, 16);
+		beltMAC(out, blk, 16, K1, 32);
+		SEND(p, out, 8);
+	}
+	memcpy(p->key, ADV_K0, 32);
+	p->accepted = 1;
+}
+
 static void party_main(void* arg)
 {
 	party* p = (party*)arg;
-	if (CFG.mode[p->side] == 0 && CFG.proto != P_BAUTH)
+	if (CFG.adv == p->side)
+		party_adversary(p);
+	else if (CFG.mode[p->side] == 0 && CFG.proto != P_BAUTH)
 		party_run(p);
 	else
 		party_steps(p);
@@ -295,6 +386,7 @@ static void gen_cfg(sk_rng* r, int alloc_mode)
 	int s;
 	tape_t setup;
 	memset(c, 0, sizeof(*c));
+	c->adv = -1;
 	c->proto = (int)sk_below(r, 4);
 	c->l = LV[x < 5 ? 0 : x < 7 ? 1 : 2];
 	b2_params(c->params, c->l / 4);
@@ -1171,5 +1263,76 @@ void run_bake_diff(uint64_t seed, const sk_mask* mask, sk_result* out)
 		sk_count("probe.protocol_error_exit_compared", 1);
 	out->sig = sk_mix(((uint64_t)c->proto << 24) | ((uint64_t)c->l << 8) | ((uint64_t)c->mode[0] << 1) | (uint64_t)c->mode[1] |
 		((uint64_t)(who + 1) << 4) | ((uint64_t)kk << 40) | ((uint64_t)dfn[0] << 48), 79);
+	out->nontrivial = 1;
+}
+
+
+/* ------------------------------------------------------------------------
+   C04, "the peers use different passwords": one side of BPACE is the adversary
+   above instead of the library.  The victim (step host or Run driver) must end
+   with an error when the adversary's side is required to confirm the key, and
+   must in no case hold the key the adversary derived. */
+void run_bake_adv(uint64_t seed, const sk_mask* mask, sk_result* out)
+{
+	sk_rng r;
+	cfg_t* c = &CFG;
+	uint64_t fill, ts[2], ss;
+	int strat, vic, adv;
+	OUT = out, MASK = mask;
+	c15_only = 0;
+	sk_rng_seed(&r, seed);
+	gen_cfg(&r, 1);
+	c->proto = P_BPACE;
+	c->adv = adv = (int)sk_below(&r, 2);
+	vic = c->adv ^ 1;
+	c->tape_mode[0] = c->tape_mode[1] = 0;
+	fill = sk_u64(&r), ts[0] = sk_u64(&r), ts[1] = sk_u64(&r), ss = sk_u64(&r);
+	strat = (int)sk_below(&r, 4);
+	describe("BPACE session against a peer without the password");
+	sk_text(OUT, "  adversary plays %c and offers the point (x, 0); victim %c runs %s", c->adv ? 'B' : 'A', vic ? 'B' : 'A', c->mode[vic] ? "the step functions" : "the Run driver");
+	sk_heap_filter = heap_filter;
+	out->nops = 0;
+	sk_heap_reset(fill);
+	PT[0].fail_at = PT[1].fail_at = 0;
+	setup_party(0, ts[0], 0), setup_party(1, ts[1], 0);
+	ch_init(&CHS[0], 0);
+	CHS[0].fragment_honest = 0xFF;
+	adv_sent = 0;
+	if (run_session(&CHS[0], ss, strat) != 0)
+	{
+		/* the adversary may be left waiting for a message the victim never sends */
+		sk_count("probe.adversary_left_waiting", 1);
+		sk_restart_requested = 1;
+	}
+	c->adv = -1;
+	sk_dg_u64(&out->digest, PT[vic].rc);
+	sk_count("calls", 1);
+	sk_count("fault.peer_without_password", 1);
+	sk_text(OUT, "  victim %s rc=%u%s%s", PT[vic].accepted ? "accepts" : "fails", (unsigned)PT[vic].rc, PT[vic].failed_call ? " in " : "", PT[vic].failed_call ? PT[vic].failed_call : "");
+	if (sk_heap_overrun())
+	{
+		sk_violate(out, "overrun:protocol", "canary damaged");
+		return;
+	}
+	if (adv_sent && PT[vic].accepted)
+	{
+		/* does the victim depend on a confirmation from the adversary's side? */
+		int confirmed = vic == 0 ? c->kcb : c->kca;
+		if (confirmed)
+		{
+			sk_violate(out, "tampered_run_confirmed", "BPACE l=%u: party %c, which requires key confirmation, completed a session with a peer that does not know the password (off-curve point (x, 0))",
+				(unsigned)c->l, vic ? 'B' : 'A');
+			return;
+		}
+		if (!memcmp(PT[vic].key, ADV_K0, 32))
+		{
+			sk_violate(out, "tampered_run_agreed", "BPACE l=%u: party %c derived the key the password-less adversary predicted from its off-curve point",
+				(unsigned)c->l, vic ? 'B' : 'A');
+			return;
+		}
+	}
+	if (adv_sent && !PT[vic].accepted && PT[vic].rc == ERR_BAD_POINT)
+		sk_count("probe.off_curve_point_refused", 1);
+	out->sig = sk_mix(((uint64_t)c->l << 8) | ((uint64_t)c->kca << 3) | ((uint64_t)c->kcb << 2) | ((uint64_t)adv << 1) | (uint64_t)c->mode[vic], 80);
 	out->nontrivial = 1;
 }
